@@ -229,6 +229,8 @@ def check(ctx):
         elif role[0] in ('augstore', 'del', 'subscript-store', 'subscript-del'):
             if not inside:
                 bad = f'the paused list is changed outside pause/unpause ({role[0]})'
+        elif role[0] in ('assign-alias', 'other') and inv.flows_to_read_only_local(s.mod, s.func, s.node):
+            pass          # a query: `events = self._paused_events if paused else self._events; return sum(1 for x in events if ...)`
         elif role[0] in ('return', 'assign-alias', 'attr'):
             bad = f'the paused list escapes ({role[0]})'
         elif role[0] == 'other':
